@@ -620,6 +620,12 @@ impl Recv {
                             .recv_flow
                             .dec_recv_window(dec)
                             .map_err(proto::Error::library_go_away)?;
+                        // Capacity that was released but stayed below the old
+                        // threshold may now be due: don't leave the peer waiting
+                        // for a WINDOW_UPDATE that nothing else would trigger.
+                        if stream.recv_flow.unclaimed_capacity().is_some() {
+                            self.pending_window_updates.push(&mut stream);
+                        }
                         Ok::<_, proto::Error>(())
                     })?;
                 }
